@@ -65,8 +65,11 @@ IMPORTS = {
             ("c01", ORDER, "operands are only regrouped inside a chain of one commutative operator")],
     "C17": [("c16", None, "wrong operand kinds, overflow and invalid casts have to come out as the documented error value (kind table), never wrapped"),
             ("c06", ["R06.5"], "an iteration whose length is an operand value has to be able to stop")],
-    "C18": [("c05", ["R05.4", "R05.5", "R05.6"], "the value-typed derivative runs through the same driver and table lookup"),
+    "C18": [("c05", None, "the value-typed derivative runs through the same rules, driver and table lookup"),
             ("c16", ["R16.2", "R16.6"], "the piecewise operators the rules emit have to mean what the rules assume")],
+    "C19": [("c10", ["R10.1", "R10.2", "R10.3"], "operators applied through the operator API (overloads, operate_binary) have to reach the table entry of that name with the operands in order"),
+            ("c08", None, "binary functions are usually written in call notation: atan2(y, x)"),
+            ("c01", ORDER + UNARY, "a one-operator expression must evaluate to that operator applied to its operands")],
 }
 
 
